@@ -122,6 +122,12 @@ func ExtractValue(v reflect.Value, extractor ValueExtractor) {
 		v = v.Elem()
 	}
 
+	// a timestamp is a value of the format, not a class: its inner types (Location, zone, ...) are none of
+	// the message's types and must not take their names away from the caller's own types
+	if v.IsValid() && v.Type() == _dateType {
+		return
+	}
+
 	if !extractor(v) {
 		return
 	}
